@@ -230,6 +230,28 @@ def flag_decode_rules(facts, rep):
                 else:
                     kinds["?" + show(val)[:40]] = (flag, others)
             good = set(kinds) == {"utf8", "cp437"} and kinds["utf8"][0] is True and kinds["cp437"][0] is False and not kinds["utf8"][1] and not kinds["cp437"][1]
+            # the decoded string is stored as decoded: nothing cuts, trims or rewrites it afterwards (a name truncated at its first NUL
+            # no longer is the name the entry has; enclosed_name() would then validate the prefix)
+            cut = sorted({y[1].split("::")[-1] for val, dbb in defs for y in walk(val) if y[0] == "call" and
+                          re.search(r"str>::(find|rfind|split\w*|trim\w*|replace\w*|strip_\w+)$|Index(<[^>]*>)?::index$|String::truncate$|Iterator::(take_while|filter|map)$", y[1])})
+            op_ = flds[fld]
+            if op_["k"] != "const" and not op_["place"]["p"]:
+                # ... nor in place: nothing borrows the decoded string mutably before it is stored
+                chain, hop = {op_["place"]["l"]}, 0
+                while hop < 3:
+                    more = {s3["rv"]["op"]["place"]["l"] for _, _, s3 in f.stmts() if s3["k"] == "assign" and s3["place"]["l"] in chain and not s3["place"]["p"] and
+                            s3["rv"]["k"] == "use" and s3["rv"]["op"]["k"] in ("move", "copy") and not s3["rv"]["op"]["place"]["p"]}
+                    if not more - chain:
+                        break
+                    chain |= more
+                    hop += 1
+                mutb = [b3 for b3, _, s3 in f.stmts() if s3["k"] == "assign" and s3["rv"]["k"] == "ref" and s3["rv"].get("mut") and s3["rv"]["place"]["l"] in chain and
+                        not s3["rv"]["place"]["p"] and not f.blocks[b3].get("cleanup")]
+                if mutb:
+                    cut = cut + ["&mut (in place)"]
+            if cut:
+                ok &= rep.check(False, rule, "%s-verbatim@%s" % (fld, f.path.split("::")[-1]), where(f, s["span"]), "",
+                                "the decoded %s is post-processed (%s) before it is stored" % (fld, cut))
             # both decoders of a field read the SAME buffer, and it is that field's own: the name's decoders the raw name that is kept
             # next to it, the comment's decoders another one (a copy-paste of the name's line decodes the name twice)
             bufs = [frozenset(y for y in walk(val) if y[0] == "call" and y[1].endswith("from_elem")) for val, dbb in defs]
